@@ -185,12 +185,41 @@ def r2(ctx):
                         for l2 in leaves(fn, cv['args'][1]):
                             work.append(l2)
             keyleaves |= seen
+        # a key part that is inserted only for some bit counts must cover every bit count for which the value can vary:
+        # ranges (min/max) can be set through derive(min, max, inc), which admits exactly the bit counts its own guard
+        # lets through
+        import re
+        def bitcounts(f, nid):
+            ok = set(range(1, 33))
+            for k, pol in set((a[0], a[1]) for a in f.atoms(nid)):
+                m = re.match(r'^\(this\.m_bitCount (<|<=|==) #(\d+)\)$', k)
+                if m:
+                    c = int(m.group(2))
+                    sat = set(x for x in range(1, 33) if {'<': x < c, '<=': x <= c, '==': x == c}[m.group(1)])
+                    ok &= sat if pol else (set(range(1, 33)) - sat)
+            return ok
+        admit = None
+        for g in fns:
+            if len(g.params) == 4:      # derive(min, max, inc, derived)
+                gn = [x for x in g.all('CXXNewExpr') if 'NumberDataType' in g.nodes[x].get('newt', '')]
+                if gn:
+                    admit = bitcounts(g, gn[0])
+        cond_leaves = {}
+        for c in fn.all('CXXOperatorCallExpr'):
+            cv = fn.nodes[c]
+            if cv.get('op') != '<<' or len(cv.get('args', [])) != 2:
+                continue
+            for l2 in leaves(fn, cv['args'][1]):
+                if l2 in ('this.m_minValue', 'this.m_maxValue') and len(fn.params) == 3:
+                    cond_leaves.setdefault(l2, set())
+                    cond_leaves[l2] |= bitcounts(fn, c)
+        partial = sorted(l for l, bc in cond_leaves.items() if admit is not None and not admit <= bc)
         for n in news:
             init = fn.nodes[n].get('init')
             if init is None:
                 continue
             args = fn.nodes[init].get('args', [])
-            missing = []
+            missing = list(partial)
             for a in args:
                 for l in sorted(leaves(fn, a)):
                     if l in ID_DETERMINED:
@@ -200,7 +229,8 @@ def r2(ctx):
             missing = sorted(set(missing))
             ctx.ob('C12.R2', fn, n, not missing,
                    'new NumberDataType in derive(%s)' % ','.join(p['name'] for p in fn.params[:-1]),
-                   ('constructor argument(s) %s vary independently of the cache key (key covers %s): a type cached '
+                   ('constructor argument(s) %s vary independently of the cache key (key covers %s, a conditional key part '
+                    'must cover every bit count that derive(min,max,inc) admits): a type cached '
                     'under this key is reused for a definition with different values (load-order dependence)' % (
                         ', '.join(missing), ', '.join(sorted(k for k in keyleaves if k not in ('key', 'str')))))
                    if missing else 'all varying constructor arguments are part of the key')
